@@ -357,3 +357,53 @@ def corpus(pid):
                 if line and not line.startswith("#"):
                     out.append(line)
     return out
+
+
+# ---------------------------------------------------------------------------
+# shrinking a failing case (used by c03/c04/c19.shrink)
+# ---------------------------------------------------------------------------
+
+def shrink_item(item, rerun_case):
+    """Greedy: drop script features and lower n / T / s while the specification
+    still fails on the implementation's output."""
+    mode = item["mode"]
+
+    def fails(case_line):
+        impl, model, sb = rerun_case(mode, case_line, crate="hx-loop", release=False, model_input=model_input, drv="loop")
+        return (not sb.startswith("true")), impl, model, sb
+
+    cur = parse(item["case"])
+    cur_line = item["case"]
+    best = None
+    for _ in range(3):
+        changed = False
+        cands = []
+        for k, v in (("ja", 0), ("grow", 0), ("skew", 0), ("ic", 0), ("al", 0), ("alm", 0), ("oh", "0,0,0,0"), ("g", 0), ("d", 0)):
+            if str(cur[k]) != str(v):
+                cands.append({k: v})
+        if cur["off"].replace("0", "").replace(",", "") != "":
+            cands.append({"off": ",".join("0" for _ in range(cur["T"]))})
+        if cur["T"] > 1:
+            cands.append({"T": cur["T"] - 1, "off": ",".join(cur["off"].split(",")[:cur["T"] - 1]) or "0"})
+        if cur["n"] not in ("-", "0") and int(cur["n"]) > 1:
+            cands.append({"n": int(cur["n"]) - 1})
+            cands.append({"n": (int(cur["n"]) + 1) // 2})
+        if cur["s"] not in ("-", "0") and int(cur["s"]) > 1:
+            cands.append({"s": 1})
+        for ch in cands:
+            trial = dict(cur)
+            trial.update(ch)
+            line = line_of(trial)
+            try:
+                bad, impl, model, sb = fails(line)
+            except Exception:
+                continue
+            if bad and not impl.startswith("crash"):
+                cur, cur_line, best, changed = parse(line), line, (impl, model, sb), True
+        if not changed:
+            break
+    if best is None:
+        return item
+    out = dict(item)
+    out.update({"case": cur_line, "impl": best[0], "model": best[1], "spec_verdict": best[2], "shrunk_from": item["case"]})
+    return out
